@@ -15,12 +15,12 @@ def post(ctx, results):
 
 
 def run(ctx):
-    n = {'quick': 200, 'thorough': 2 * len(rtcheck.MATRIX)}[ctx.tier]
+    n = {'quick': 240, 'thorough': 2 * len(rtcheck.MATRIX)}[ctx.tier]
     plan = [('matrix', n, 4)]
     return rtprop.run(ctx, THEOREMS, plan, 'exploration',
                       'configuration matrix: 13 table option sets x {7,8} bit x {default,-I,-B} x {%%pointer,%%array} x '
-                      '{non-reentrant C, reentrant C, c99 back end} x {in-code, serialized tables (default skeleton only)} = %d configurations, visited in a '
+                      '{non-reentrant C, reentrant C, c99 back end, C++ class} x {in-code, serialized tables (default skeleton only)} = %d configurations, visited in a '
                       'stride order (all of them twice in the thorough tier); every configuration that flex accepts must '
                       'compile and produce, on generated probes and scripts, exactly the trace of the one specification; '
-                      'refusals must carry a diagnostic. The c99 scanners run the whole action script interpreter as literal action text, so that flex\'s rewriting of yytext/yyless()/yymore()/... is what is exercised; the C++ class is not in the matrix.' % len(rtcheck.MATRIX),
+                      'refusals must carry a diagnostic. The c99 scanners run the whole action script interpreter as literal action text, so that flex\'s rewriting of yytext/yyless()/yymore()/... is what is exercised; C++ scanners are a subclass given with yyclass whose LexerInput/LexerError are the harness (%%array there is overridden with a warning, as documented).' % len(rtcheck.MATRIX),
                       post=post)
